@@ -337,6 +337,23 @@ def oct_base(base):
     return base.get('base') in ('OCTET STRING', 'DisplayString', 'Opaque') or base.get('kind') == 'str'
 
 
+DIRECTED = [
+    # an enumeration label spelled like an imported node, used as the default: a label, never that node's OID
+    ('enum-label-like-import', {
+        'texts': {'ACME-N-MIB': 'ACME-N-MIB DEFINITIONS ::= BEGIN IMPORTS enterprises FROM SNMPv2-SMI;\nacmeRoot OBJECT IDENTIFIER ::= { enterprises 66 }\nEND\n',
+                  'ACME-O-MIB': 'ACME-O-MIB DEFINITIONS ::= BEGIN IMPORTS OBJECT-TYPE, enterprises FROM SNMPv2-SMI acmeRoot FROM ACME-N-MIB;\n'
+                                'acmeState OBJECT-TYPE SYNTAX INTEGER { acmeRoot(1), other(2) } MAX-ACCESS read-only STATUS current DESCRIPTION "d" '
+                                'DEFVAL { acmeRoot } ::= { acmeRoot 1 }\nEND\n'},
+        'expect_default': {'ACME-O-MIB': {'acmeState': {'value': 'acmeRoot', 'format': 'enum'}}}}),
+    # the same label on a named type two levels up
+    ('enum-label-through-types', {
+        'texts': {'ACME-P-MIB': 'ACME-P-MIB DEFINITIONS ::= BEGIN IMPORTS OBJECT-TYPE, enterprises FROM SNMPv2-SMI;\n'
+                                'AcmeE ::= INTEGER { up(1), down(2), testing(3) }\nAcmeE2 ::= AcmeE\n'
+                                'acmeP OBJECT-TYPE SYNTAX AcmeE2 MAX-ACCESS read-only STATUS current DESCRIPTION "d" DEFVAL { testing } ::= { enterprises 67 }\nEND\n'},
+        'expect_default': {'ACME-P-MIB': {'acmeP': {'value': 'testing', 'format': 'enum'}}}}),
+]
+
+
 def run(ctx):
     res = ctx.res
     res.rule = ('(a) literal lists with boundary values 0, +-1, 2^31+-1, 2^32-1, 2^32, 2^63, 2^64-1, 10^25 in decimal / hex (either case, leading '
@@ -344,6 +361,15 @@ def run(ctx):
                 'module sets with every built-in and application type, inline refinements, enumerations, BITS, chains of 2-5 derived types / '
                 'textual conventions within and across modules, every DEFVAL notation (number, hex, binary, string, enum label, bit list, OID '
                 'label); non-trivial = at least one refinement or DEFVAL; distinct by generated text')
+    for label, inp in DIRECTED:
+        res.case(('directed', label), True)
+        res.count('directed')
+        try:
+            r = replay({'input': inp})
+        except BaseException as e:
+            r = {'fails': True, 'what': ['%s: %s' % (type(e).__name__, e)]}
+        if r['fails']:
+            res.oracle_failures.append({'key': 'defval', 'what': 'directed module %s: %s' % (label, '; '.join(map(str, r.get('what') or []))[:300]), 'input': inp})
     reqs, metas = [], []
     ctx.defval_reqs, ctx.defval_metas = reqs, metas
     ranges_stream(ctx, reqs, metas)
